@@ -66,7 +66,7 @@ REQUIRE = {
 EPS64 = c06.EPS64
 LD = np.longdouble
 WIDTH = c06.WIDTH
-K_DOT, K_ACC, K_W, K_SUM, K_SUM_KAPPA, K_M1 = 4, 32, 2 * c06.K_W, c06.K_SUM, c06.K_SUM_KAPPA, c06.K_M1
+K_DOT, K_ACC, K_W, K_SUM, K_SUM_KAPPA, K_M1 = 4, 64, 2 * c06.K_W, c06.K_SUM, c06.K_SUM_KAPPA, c06.K_M1
 
 # subsets / supersets of C06's pool (same (dx, N) -> shared numba cache); 3-D compiles ~25 s per entry cold
 POOL = {
@@ -316,7 +316,9 @@ def _check_batch(rec, rng, comm, P, shape, dxf, shiftf, eps, base, meta, kernel,
             got = target.astype(np.float64)
             loc = np.unravel_index(int(np.argmax(np.where(np.isfinite(got), np.abs(got - ref) / tol, np.inf))), got.shape)
             mech = f"spread({tag})!=target+W^T F"
-            if _overwrite_model_explains(target, T0, W, Fs, tol, vector):
+            if util.bits_equal(target, T0):
+                mech = f"spread({tag})-left-target-unchanged"
+            elif _overwrite_model_explains(target, T0, W, Fs, tol, vector):
                 mech = f"spread({tag})-overwrites-instead-of-accumulating"
             elif vector:
                 for perm in ((1, 0), (1, 0, 2), (2, 1, 0), (0, 2, 1), (1, 2, 0), (2, 0, 1)):
@@ -351,7 +353,9 @@ def _check_batch(rec, rng, comm, P, shape, dxf, shiftf, eps, base, meta, kernel,
         # bilinear identity
         lhs = float((Fl * lg.astype(LD)).sum())
         rhs = float((sfl * uu.astype(LD)).sum() * LD(vol))
-        tol = (kdot + acc) * eps * float((np.abs(Fm.astype(np.float64)) * aI).sum()) + 1e-300
+        # both sides use the SAME real weights, which differ from W by the weight noise floor (also in cells where W = 0)
+        noise = wnoise * e_m * ib.interpolate(S, np.abs(uu), dxf) / vol
+        tol = (kdot + acc) * eps * float((np.abs(Fm.astype(np.float64)) * (aI + noise)).sum()) + 1e-300
         r = abs(lhs - rhs) / tol if np.isfinite(lhs) and np.isfinite(rhs) else float("inf")
         rec.stat(f"bilinear_identity_{tag}", r)
         rec.count("bilinear_identities")
